@@ -200,7 +200,9 @@ func (c *cluster) handleChanges(key string, kvs []KV) {
 			m[kv.Key] = kv.Val
 		}
 		for k, v := range vals {
-			if vals, ok := m[k]; !ok || v != vals {
+			// 值发生变化的 key 只作为新增上报：监听器按 key 移除，
+			// 若再上报一次移除，会把刚替换进去的新值一并删掉。
+			if _, ok := m[k]; !ok {
 				remove = append(remove, KV{
 					Key: k,
 					Val: v,
